@@ -337,6 +337,10 @@ class Types:
         if m:
             a = split_targs(m.group(1))
             return self.ctype(a[1] if len(a) > 1 else 'void')
+        if t.endswith('::value_type') and t[:-len('::value_type')].endswith('>'):
+            nm, ar = tmpl(t[:-len('::value_type')])
+            if ar:
+                return self.ctype(ar[-1] if 'alloc_traits' in nm else ar[0])
         if t.endswith('::element_type') and t[:-len('::element_type')].endswith('>'):
             base = self.ctype(t[:-len('::element_type')])
             if base.startswith('vec_'):
@@ -975,6 +979,8 @@ class FnEmitter:
         k = self.ty.kind(oct_)
         if oct_.endswith(' *'):
             return e, oct_[:-2]
+        if self.ty.is_oomd_struct(oct_) and self.strip(obj).get('valueCategory') == 'lvalue':
+            return '&' + e, oct_        # methods of struct-modelled classes take the object by pointer
         if k == 'value' and mutating:
             return '&' + e, oct_
         return e, oct_
@@ -1276,6 +1282,8 @@ class FnEmitter:
             return m(n)
         # expression statement
         root = self.strip(n)
+        if root.get('kind') == 'CXXThrowExpr':
+            return self.u.exc.throw_stmt(self, root)
         if root.get('kind') == 'ConditionalOperator':
             c, a, b = kids(root)
             sa, sb = self.strip(a), self.strip(b)
@@ -1396,8 +1404,13 @@ class FnEmitter:
         if is_ref and not qt.endswith('&&') and not is_const and self.ty.kind(ct) in ('scalar', 'value') \
                 and not ct.endswith('*'):
             # mutable lvalue reference to a scalar/value object -> C pointer
+            ie0 = self.expr(init)
+            if name.startswith('__range') and re.match(r'^[A-Za-z_][A-Za-z_0-9]*\(', ie0):
+                # range expression is a temporary / a value returned by a call: iterate over a copy
+                self.w('%s %s = %s;' % (ct, name, ie0))
+                return
             self.locals_ptr.add(d['id'])
-            self.w('%s *%s = &%s;' % (ct, name, self.expr(init)))
+            self.w('%s *%s = &%s;' % (ct, name, ie0))
             return
         ie = self.expr(init)
         self.w('%s %s = %s;' % (ct, name, ie))
